@@ -629,6 +629,9 @@ class Simulation:
 
         # The clone purges its own cache entries only.
         new.invalidated_caches = set()
+        # ... and keeps its on-disk values in a temporary directory of its own,
+        # made on first use.
+        new._data_storage_dir = None
 
         new.persons = self.persons.clone(new)
         setattr(new, new.persons.entity.key, new.persons)
